@@ -263,7 +263,11 @@ class CallNodeSerializer(Serializer):
             "value_hash": call_node.value_hash,
             "timestamp": serialize_timestamp(call_node.timestamp),
             "args": args,
-            "children": [edge.child_id for edge in call_node.child_edges],
+            # Children are listed in call order, which deserialize() turns back into call_order.
+            "children": [
+                edge.child_id
+                for edge in sorted(call_node.child_edges, key=lambda edge: edge.call_order)
+            ],
         }
 
         # The tasks used in the subtree are needed by check_valid="shallow" caching to react to
